@@ -128,6 +128,9 @@ def parse_responses(data):
     return res, stray, None
 
 
+SLOW_CLIENT_MS = 240     # the harness server's connection timeout is 300 ms (harness/src/c01.rs TIMEOUT_MS)
+
+
 def check_property(exp, exp_closed, got, stray, err, closed, now):
     """returns (class, what) of the first violation, or None"""
     if err:
@@ -302,6 +305,14 @@ def judge(ctx, cases, m, im, runtime):
             continue
         exp, exp_closed = expected(info['reqs'], info['idle'])
         v = check_property(exp, exp_closed, got, stray, err, closed, now)
+        gm = re.search(r' gap=(\d+) ', b)
+        if v is not None and gm and int(gm.group(1)) >= SLOW_CLIENT_MS and got and got[-1]['code'] == 408:
+            # the harness client itself (on a loaded machine) let about the connection timeout pass between an answer and its
+            # next action: the server's 408 answers a wait that really was that long - the plan had an unplanned idle period
+            # after some answered request (what was sent afterwards goes unanswered, as after any 408)
+            if any(check_property(exp[:k] + [{'code': 408}], True, got, stray, err, closed, now) is None for k in range(1, len(exp) + 1)):
+                ctx.count('slow harness client (gap >= %d ms): trailing 408 is the timed-out wait' % SLOW_CLIENT_MS)
+                continue
         case = {'line': line, 'runtime': runtime, 'family': info['family'], 'requests': [r['raw'].decode('latin-1')[:80] for r in info['reqs']], 'idle': info['idle']}
         if v is not None:
             cls, what = v
